@@ -533,4 +533,133 @@ theorem audit_comparison_risk_limit {α : Type} (ballot : α → CVR) (cards : L
   obtain ⟨c, hc, hw⟩ := hwrong
   exact ⟨h1, le_trans (h1 c hc hw) (riskLimit_le_max s c hc)⟩
 
+/-! ### non-vacuity
+
+Contest "AvB", vote for up to two of `a, b, c`; reported winners `a, b`, reported loser `c`.  Five cards were cast:
+`{a,b}`, `{a,c}`, `{a}`, `{b}`, `{c}` — `a` has 3 marks, `b` has 2 and so has `c`: the third candidate TIES the second,
+the reported outcome is wrong (cannot be confirmed).  `make_plurality_assertions` builds `a v c` and `b v c`
+(`Assertion.make_all_assertions` on the real `Contest`: keys `['a v c', 'b v c']`, `test.N = 5`, `t = 1/2`, `u = 1`). -/
+
+/-- why `hall` is a hypothesis and not a consequence of "the assertions were built by `make_plurality_assertions`":
+the dict key of a pair is `winr + " v " + losr` (L1925), and two different pairs can get the same key — with winners
+`a`, `a v b` and losers `b v c`, `c` the pairs (`a`, `b v c`) and (`a v b`, `c`) both get `a v b v c`; the second
+assignment overwrites the first.  On the real code: `make_all_assertions` for candidates `a, a v b, b v c, c`, winners
+`a, a v b` returns 3 assertions for the 4 pairs — none compares `a` with `b v c`. -/
+theorem pair_name_clash : "a" ++ " v " ++ "b v c" = "a v b" ++ " v " ++ "c" ∧ ("a", "b v c") ≠ ("a v b", "c") := by
+  decide
+
+section example_
+open Shangrla.NM
+
+def k2Ballot (id : String) (m : Marks) : CVR := { id := id, votes := [("AvB", m)] }
+
+/-- the cards cast -/
+def B2 : List CVR :=
+  [k2Ballot "1" [("a", .b true), ("b", .b true)], k2Ballot "2" [("a", .b true), ("c", .b true)],
+   k2Ballot "3" [("a", .b true)], k2Ballot "4" [("b", .b true)], k2Ballot "5" [("c", .b true)]]
+
+def cfg2 : Cfg := { N := some 5, u := 1, t := 1/2, randomOrder := true, kw := { eta := some (3/4) } }
+def data2 : String → String → CVR → ℚ :=
+  fun _ name => if name = "a v c" then plurality "AvB" "a" "c" else plurality "AvB" "b" "c"
+def T2 : String → String → SeqTest := fun _ _ => NM.run sqrtRat cfg2 (.alpha .fixedAlt)
+def c2 : Contest :=
+  { id := "AvB", riskLimit := 3/5, assertions := [{ name := "a v c" }, { name := "b v c" }],
+    nWinners := 2, candidates := some ["a", "b", "c"], winner := some ["a", "b"] }
+def s2 : State := [c2]
+
+example : C02.marks "AvB" "a" B2 = 3 ∧ C02.marks "AvB" "b" B2 = 2 ∧ C02.marks "AvB" "c" B2 = 2 := by decide +kernel
+
+/-- the reported outcome `{a, b}` is wrong: `c` has as many marks as `b` -/
+theorem example_k2_wrong : PluralityOutcomeWrong "AvB" ["a", "b"] ["c"] B2 :=
+  (pluralityOutcomeWrong_iff_pair _ _ _ _).2 ⟨"b", by simp, "c", by simp, by decide +kernel⟩
+
+/-- the losers are what `make_all_assertions` computes (L2186), and the assertion names are the dict keys -/
+example : Assorter.losers ["a", "b", "c"] ["a", "b"] = ["c"] ∧
+    c2.assertions.map (·.name) = ["a" ++ " v " ++ "c", "b" ++ " v " ++ "c"] := by decide
+
+/-- `hall`: both pairs have their assertion, tested by ALPHA (`fixed_alternative_mean`, `eta = 3/4`) with `N = 5` -/
+theorem example_k2_hall : ∀ w ∈ ["a", "b"], ∀ l ∈ ["c"],
+    PollingAssertion data2 T2 c2 B2.length (plurality "AvB" w l) 1 := by
+  have hdoc : C01.DocumentedFinite sqrtRat cfg2 (.alpha .fixedAlt) :=
+    ⟨by norm_num [cfg2], ⟨by norm_num [cfg2, eps], by norm_num [cfg2, eps], by norm_num [cfg2]⟩, trivial⟩
+  intro w hw l hl
+  simp only [List.mem_cons, List.not_mem_nil, or_false] at hw hl
+  subst hl
+  rcases hw with rfl | rfl
+  · exact ⟨{ name := "a v c" }, by simp [c2], rfl, sqrtRat, cfg2, _, rfl, rfl, rfl, rfl, hdoc⟩
+  · exact ⟨{ name := "b v c" }, by simp [c2], rfl, sqrtRat, cfg2, _, rfl, rfl, rfl, rfl, hdoc⟩
+
+/-- every hypothesis of `plurality_outcome_polling_risk_limit` is satisfied ... -/
+example : hitG (auditComplete data2 T2 s2) 5 B2 [] ≤ 3/5 :=
+  plurality_outcome_polling_risk_limit data2 T2 s2 c2 (List.mem_singleton.2 rfl) B2 "AvB" ["a", "b"] ["c"]
+    example_k2_hall (by norm_num [c2]) (by norm_num [c2]) example_k2_wrong
+
+/-- ... and of the audit-level statement -/
+example : hitG (auditComplete data2 T2 s2) 5 B2 [] ≤ maxRiskLimit s2 :=
+  (audit_polling_risk_limit data2 T2 s2 B2 (fun _ => .plurality "AvB" ["a", "b"] ["c"])
+    (by intro c hc; rw [List.mem_singleton.1 hc]; exact example_k2_hall)
+    (by intro c hc; rw [List.mem_singleton.1 hc]; norm_num [c2])
+    ⟨c2, List.mem_singleton.2 rfl, example_k2_wrong⟩).2
+
+/-- the bounded event really happens: although `c` tied `b`, over the 120 orders of the five cards the audit is
+reported complete (BOTH assertions' p-values at most 3/5 at the same look) with probability 3/10 — below 3/5 -/
+theorem example_outcome_polling_exact : hitG (auditComplete data2 T2 s2) 5 B2 [] = 3/10 := by decide +kernel
+
+/-! the same contest under a card-level comparison audit (no style, no pools).  The machine misread card 5 as `{b}`:
+the CVRs say `a` 3, `b` 3, `c` 1 — both reported margins are 2/5, test bound 5/4.  The manual records are `B2`.  Each
+assertion reads its own `Cvr` off the card (`cvAC`, `cvBC`: the reported assorter values differ). -/
+
+/-- what the machine reported -/
+def R2 : List CVR :=
+  [k2Ballot "1" [("a", .b true), ("b", .b true)], k2Ballot "2" [("a", .b true), ("c", .b true)],
+   k2Ballot "3" [("a", .b true)], k2Ballot "4" [("b", .b true)], k2Ballot "5" [("b", .b true)]]
+
+/-- a card: its true ballot and the machine's record of it -/
+def cards2 : List (CVR × CVR) := B2.zip R2
+def cvAC (x : CVR × CVR) : Cvr := cvrOf (plurality "AvB" "a" "c") "AvB" false none 0 x.2
+def cvBC (x : CVR × CVR) : Cvr := cvrOf (plurality "AvB" "b" "c") "AvB" false none 0 x.2
+def cfgC2 : Cfg := { N := some 5, u := 5/4, t := 1/2, randomOrder := true, kw := { eta := some 1 } }
+def dataC2 : String → String → CVR × CVR → Option ℚ :=
+  fun _ name x => if name = "a v c"
+    then cardDatum .cardComparison false (XR.fin (2/5)) 1 none (mvrOf (plurality "AvB" "a" "c") "AvB" x.1, cvAC x)
+    else cardDatum .cardComparison false (XR.fin (2/5)) 1 none (mvrOf (plurality "AvB" "b" "c") "AvB" x.1, cvBC x)
+def TC2 : String → String → SeqTest := fun _ _ => NM.run sqrtRat cfgC2 (.alpha .fixedAlt)
+
+example : C02.marks "AvB" "a" R2 = 3 ∧ C02.marks "AvB" "b" R2 = 3 ∧ C02.marks "AvB" "c" R2 = 1 ∧
+    cards2.map (dataC2 "AvB" "a v c") = [some (5/8), some (5/8), some (5/8), some (5/8), some (5/16)] ∧
+    cards2.map (dataC2 "AvB" "b v c") = [some (5/8), some (5/8), some (5/8), some (5/8), some 0] := by
+  decide +kernel
+
+/-- all five cards are under audit and were found: the found ballots are the cards cast -/
+theorem example_k2_found : foundOf false "AvB" Prod.fst (fun _ => true) cards2 = B2 := rfl
+
+example : lostOf false "AvB" Prod.fst (fun _ => true) cards2 = 0 := by decide +kernel
+
+theorem example_k2_hall_comparison : ∀ w ∈ ["a", "b"], ∀ l ∈ ["c"],
+    ComparisonAssertion Prod.fst cards2 "AvB" false (fun _ => true) dataC2 TC2 c2 (plurality "AvB" w l) 1 := by
+  have hdoc : C01.DocumentedFinite sqrtRat cfgC2 (.alpha .fixedAlt) :=
+    ⟨by norm_num [cfgC2], ⟨by norm_num [cfgC2, eps], by norm_num [cfgC2, eps], by norm_num [cfgC2]⟩, trivial⟩
+  intro w hw l hl
+  simp only [List.mem_cons, List.not_mem_nil, or_false] at hw hl
+  subst hl
+  rcases hw with rfl | rfl
+  · exact ⟨{ name := "a v c" }, by simp [c2], cvAC, .cardComparison, none, XR.fin (2/5), XR.fin (5/4), sqrtRat, cfgC2,
+      _, by decide +kernel, Or.inl rfl, MeansFrom.unset, by decide +kernel, by decide +kernel, by decide +kernel,
+      by decide +kernel, rfl, by decide +kernel, rfl, rfl, rfl, hdoc⟩
+  · exact ⟨{ name := "b v c" }, by simp [c2], cvBC, .cardComparison, none, XR.fin (2/5), XR.fin (5/4), sqrtRat, cfgC2,
+      _, by decide +kernel, Or.inl rfl, MeansFrom.unset, by decide +kernel, by decide +kernel, by decide +kernel,
+      by decide +kernel, rfl, by decide +kernel, rfl, rfl, rfl, hdoc⟩
+
+/-- every hypothesis of `plurality_outcome_comparison_risk_limit_found` is satisfied ... -/
+example : hitG (auditCompleteOpt dataC2 TC2 s2) 5 cards2 [] ≤ 3/5 :=
+  plurality_outcome_comparison_risk_limit_found Prod.fst cards2 "AvB" ["a", "b"] ["c"] false (fun _ => true)
+    dataC2 TC2 s2 c2 (List.mem_singleton.2 rfl) example_k2_hall_comparison (by norm_num [c2]) (by norm_num [c2])
+    (by rw [example_k2_found]; exact example_k2_wrong)
+
+/-- ... and the exact probability over the 120 orders is 2/5 -/
+theorem example_outcome_comparison_exact : hitG (auditCompleteOpt dataC2 TC2 s2) 5 cards2 [] = 2/5 := by
+  decide +kernel
+
+end example_
+
 end Shangrla.RiskLimit
